@@ -1139,7 +1139,15 @@ fn recv(
                 drop(shared_memory_regions);
                 return recv(fd, blocking_mode);
             },
-            cmp::Ordering::Less => return Err(UnixError::last()),
+            cmp::Ordering::Less => {
+                // A signal handled while waiting for the next fragment has transferred nothing:
+                // go on, rather than losing the message that is half received.
+                let error = UnixError::last();
+                if matches!(error, UnixError::Errno(libc::EINTR)) {
+                    continue;
+                }
+                return Err(error);
+            },
         }
     }
 
